@@ -91,7 +91,13 @@ func genPItem(r *simrt.Rand, dim, nIds int, cos bool, grid bool) PItem {
 	}
 	it := PItem{Id: r.Intn(nIds), Vec: genVec(r, dim, grid, cos), Meta: genMeta(r, true), Lvl: lvl}
 	if r.Bool(0.04) { // shapes the snapshot format cannot hold: must be rejected without any effect
-		switch r.Intn(3) {
+		switch r.Intn(5) {
+		case 3:
+			// within the limits when counted in characters, over them in bytes (the snapshot
+			// format stores byte lengths)
+			it.Meta = map[string]string{strings.Repeat("\u00e9", r.Range(128, 255)): "x"}
+		case 4:
+			it.Meta = map[string]string{"v": strings.Repeat("\u20ac", r.Range(21846, 30000))}
 		case 0:
 			it.Meta = map[string]string{strings.Repeat("K", 256): "x"}
 		case 1:
